@@ -205,6 +205,46 @@ func RunNil(c *core.Ctx) {
 					c.Fail("NIL.recv", con, fmt.Sprintf("a nil *%s (the read-only empty message, e.g. Type().Zero() or Get of an unset message field) is dereferenced by %s without a nil test at %d site(s), first %s", m.GoName, name, len(sites), types.ExprString(sites[0].(ast.Expr))), pos(c, g, sites[0].Pos()), src)
 				}
 			}
+			// ---- NIL.msgmut: a mutator of the message must fail on the nil (read-only empty) message: it may not
+			// give the receiver a fresh value (the write would land in a throw-away message) nor leave when it is nil
+			for _, name := range []string{"Set", "Mutable", "Clear", "SetUnknown"} {
+				fd := m.Methods[name]
+				con := fmt.Sprintf("%s.%s", m.Q(), name)
+				if fd == nil {
+					c.Fail("NIL.msgmut", con, "method not found", "", src)
+					continue
+				}
+				ro := recvObj(info, fd)
+				if ro == nil {
+					c.Fail("NIL.msgmut", con, "the mutator does not use its receiver: nothing can be stored", pos(c, g, fd.Pos()), src)
+					continue
+				}
+				bad := ""
+				var at ast.Node
+				ast.Inspect(fd.Body, func(x ast.Node) bool {
+					if bad != "" {
+						return false
+					}
+					switch t := x.(type) {
+					case *ast.AssignStmt:
+						for _, l := range t.Lhs {
+							if isIdentObj(info, l, ro) {
+								bad, at = "assigns the receiver ("+types.ExprString(l)+" = ...): on the nil message the data is stored into a throw-away value instead of panicking", t
+							}
+						}
+					case *ast.BinaryExpr:
+						if (t.Op == token.EQL || t.Op == token.NEQ) && ((isIdentObj(info, t.X, ro) && isNilIdent(info, t.Y)) || (isIdentObj(info, t.Y, ro) && isNilIdent(info, t.X))) {
+							bad, at = "tests the receiver for nil: the store can be skipped silently on the nil message", t
+						}
+					}
+					return true
+				})
+				if bad != "" {
+					c.Fail("NIL.msgmut", con, name+" "+bad, pos(c, g, at.Pos()), src)
+				} else {
+					c.Ok("NIL.msgmut", con, "the receiver is neither rebound nor nil-tested: storing into the nil message dereferences nil and panics", pos(c, g, fd.Pos()), src)
+				}
+			}
 			// ---- NIL.wrap: typed-nil oneof wrappers in Get / Range / Has / WhichOneof
 			for _, name := range []string{"Get", "Range"} {
 				fd := m.Methods[name]
